@@ -118,6 +118,14 @@ def check_queue(ctx, tu, info, q):
                 held = MUTEX_OF[fld] in held_mutex_names(si, u['pos'])
                 if how == 'call:empty' and not held:
                     ok = f.outermost().name in PRECHECK_OK[fld]
+                    if not ok:
+                        # structurally the same thing in a function the table does not know (e.g. an extracted helper): the unlocked
+                        # test is nothing but a branch condition - what follows on either edge is judged by the guarded-by and re-check
+                        # rules on its own
+                        for bid, blk in f.blocks.items():
+                            c = blk.get('cond')
+                            if c and len(blk['succ']) == 2 and f.cond_core(c)[0] == f.strip_all_casts(u['node']):
+                                ok = True
                     ctx.ob('C06.G', f, 'unlocked %s.empty() is one of the tolerated pre-checks' % fld, ok,
                            detail='unlocked emptiness test at %s in a function that is not in the reviewed pre-check table' % f.nloc(u['node']),
                            where=f.nloc(u['node']), key_detail='precheck ' + fld)
